@@ -129,7 +129,15 @@ def _mk_forward(cls):
         if "tc_rise" in kv:
             c.require(kv["tc_rise"] > 0, kv["tc_decay"] > kv["tc_rise"])
         inplace = c.choice("inplace", [False, True])
-        syn = new_syn(c, file, cls, step_time=dt, delay=delay, inplace=inplace, **kv)
+        # the step time in force is the one the synapse reports NOW: given to the constructor, or assigned through the public
+        # setter afterwards (a simulation re-run at another resolution) - nothing may remember the construction-time value
+        if c.choice("step_time_given_to", ["constructor", "setter"]) == "setter":
+            dt0 = c.real("dt_at_construction")
+            c.require(dt0 > 0)
+            syn = new_syn(c, file, cls, step_time=dt0, delay=delay, inplace=inplace, **kv)
+            c.setattr(syn, "dt", dt)
+        else:
+            syn = new_syn(c, file, cls, step_time=dt, delay=delay, inplace=inplace, **kv)
         # record sizing from (dt, delay, inclusive=True)
         from pyvc.sym import ceil_real
 
